@@ -41,7 +41,7 @@ def build_archives(ctx, kinds_seeds, jobs=4):
         d = os.path.join(ctx.work, "in_" + name)
         C.rvh(["mk-inputs", "--kind", kind, "--seed", str(seed), "--dir", d])
         path = os.path.join(ctx.work, name + ".agc")
-        rc, out, err, _ = C.rvh(["create", "--dir", d, "--out", path] + (["--big"] if kind == "big" else []), check=False, timeout=1800, env=MALLOC_ENV)
+        rc, out, err, _ = C.rvh(["container-create", "--dir", d, "--out", path] + (["--big"] if kind == "big" else []), check=False, timeout=1800, env=MALLOC_ENV)
         res = json.loads(out.strip().splitlines()[-1]) if out.strip() else {}
         if rc != 0 or res.get("result") != "ok":
             raise C.ToolError("building archive %s failed: rc=%s %s %s" % (name, rc, out[-300:], err[-300:]))
